@@ -23,20 +23,44 @@ HOME = {(0, 0): "white_queen", (0, 7): "white_king", (7, 0): "black_queen", (7, 
 def run(ctx):
     F = ctx.facts
     fn = F.fn(PUSH)
-    try:
-        ex, arms = surgery.extract(fn, F)
-    except surgery.Extraction as e:
-        ctx.check("C02.R1", "extraction", False, fn=PUSH, file=fn["file"], what="board surgery of Game::push is not extractable: %s" % e,
-                  nontrivial=False)
-        return
-    r1(ctx, fn, ex)
-    r2(ctx, F, fn, arms)
-    r3(ctx, F, fn, arms)
+    r123(ctx, F)
     for key, ok, fnp, found in gamestate_bit_facts(F)[0]:
         ctx.check("C02.R4", "state-byte:" + key, ok, fn=fnp, file="src/chess/gamestate.rs",
                   what="bit layout of the castling rights / en-passant nibble is inconsistent", found=found)
     r5(ctx, F, fn)
     r6(ctx, F, fn)
+
+
+def r123(ctx, F, rules=("R1", "R2", "R3"), prefix="C02"):
+    """Board, king cache and castling rights after a move, by evaluating the summary of Game::push on a table of concrete moves
+    (rules/playmodel.py): R1 board and king cache, R2 rights lost by rook moves / captures on a rook's home square, R3 rights lost by
+    king moves and castling."""
+    from . import playmodel
+    fn = F.fn(PUSH)
+    try:
+        bad, n = playmodel.check_push(F)
+    except hir.Unsupported as e:
+        ctx.check(prefix + ".R1", "push-summarisable", False, fn=PUSH, file=fn["file"], nontrivial=False,
+                  what="Game::push is no longer a loop-free update that can be summarised: %s" % e)
+        return
+    by_case = {}
+    for name, txt in bad:
+        by_case.setdefault(name, []).append(txt)
+    for name, mv, owner, pre, exp in playmodel.move_cases():
+        probs = by_case.get(name, [])
+        kingish = name.startswith(("king", "Castling"))
+        for rule, sel, what in (("R1", lambda t: not t.startswith("castling rights") and not t.startswith("right "),
+                                 "the board and the cached king square after the move are not what the rules of chess prescribe"),
+                                ("R3" if kingish else "R2", lambda t: t.startswith("castling rights") or t.startswith("right "),
+                                 "the castling rights after the move are not what the rules prescribe (a king move or castling loses both rights of "
+                                 "the mover; a rook leaving, or anything captured on, a rook's home square loses that right; nothing else does)")):
+            if rule not in rules:
+                continue
+            mine = [t for t in probs if sel(t)]
+            ctx.check("%s.%s" % (prefix, rule), "push:%s" % name, not mine, fn=PUSH, file=fn["file"], line=fn["span"][0], what=what,
+                      expected={"board": playmodel.show_board(exp["board"]), "king cache": exp["king"], "rights lost": sorted(exp["cleared"])},
+                      found=mine or "as prescribed")
+    ctx.floor(prefix + ".R1", "move cases evaluated", n, 30)
 
 
 def r1(ctx, fn, ex):
